@@ -210,6 +210,70 @@ fn backend<B: Backend, P: Prims>(opts: &Opts, rep: &mut Report) {
     }
 }
 
+/// reference-built password wraps that share salt, nonce, password and key but differ in the cost
+/// parameters, unwrapped back to back (an implementation that memoises the KDF output under a key
+/// that omits a parameter returns the wrong key or rejects the second blob)
+fn pbkw_sequences<B: Backend, P: Prims>(opts: &Opts, rep: &mut Report) {
+    if !opts.wants_backend(B::NAME) {
+        return;
+    }
+    let stream = format!("c07.seq.{}", B::NAME);
+    let mut idx = 0u64;
+    for _ in 0..opts.size(120, 2000) {
+        idx += 1;
+        if !opts.mine(idx) {
+            continue;
+        }
+        let mut rng = Rng::derive(opts.seed, &stream, idx);
+        let kind = if rng.chance(1, 2) { Wk::PwLocal } else { Wk::PwSecret };
+        let hdr = kind.header(B::VER);
+        let key_raw = gen_wrapped_key::<B>(kind, &mut rng);
+        let (sl, nl) = if B::VER % 2 == 1 { (32, 16) } else { (16, 24) };
+        let salt = rng.bytes(sl);
+        let nonce = rng.bytes(nl);
+        let plen = rng.below(20);
+        let pass = rng.bytes(plen);
+        let variants: Vec<r::PwParams> = if B::VER % 2 == 1 {
+            vec![1u32, 2, 3, 1000, 1, 2].into_iter().map(|i| r::PwParams { iters_or_time: i, mem_bytes: 0, para: 1 }).collect()
+        } else {
+            vec![(1u32, 8192u64), (2, 8192), (1, 16384), (3, 8192), (1, 8192), (2, 16384)].into_iter().map(|(t, m)| r::PwParams { iters_or_time: t, mem_bytes: m, para: 1 }).collect()
+        };
+        let mut s = Secrets::blank();
+        s.pass = pass.clone();
+        let mut history = vec![];
+        // build all blobs first, then unwrap them strictly back to back (nothing else in between)
+        let blobs: Vec<(String, String)> = variants
+            .iter()
+            .filter_map(|p| ref_pbkw_wrap::<P>(B::VER, &hdr, &pass, p, &salt, &nonce, &key_raw, rep).map(|b| (format!("{p:?}"), join_paserk(&hdr, &b))))
+            .collect();
+        let order: Vec<usize> = (0..blobs.len()).chain((0..blobs.len()).rev()).collect();
+        for i in order {
+            let (pd, text) = &blobs[i];
+            history.push(pd.clone());
+            match guard(|| unwrap::<B>(kind, text, &s)) {
+                Ok(Ok(k)) if k == key_raw => {}
+                other => {
+                    rep.violation(
+                        &format!("C07|{}|{}|reference-blob-not-unwrapped-after-related-blob", B::NAME, kind.name()),
+                        json!({"backend": B::NAME, "kind": kind.name(), "same_salt_password_history": history, "blob": text, "result": format!("{:?}", other.map(|r| r.map(|k| hx_short(&k)).map_err(|e| err_kind(&e))))}),
+                    );
+                    break;
+                }
+            }
+        }
+        // the wrapping direction with the same password and each parameter set, also back to back
+        for p in &variants {
+            s.pw_params = p.bytes(B::VER);
+            match guard(|| wrap::<B>(kind, &key_raw, &s).and_then(|b| unwrap::<B>(kind, &b, &s))) {
+                Ok(Ok(k)) if k == key_raw => {}
+                _ => rep.violation(&format!("C07|{}|{}|wrap-roundtrip-fails-in-sequence", B::NAME, kind.name()), json!({"history": history})),
+            }
+        }
+        rep.case(&format!("{}.pbkw-sequence", B::NAME), fnv_parts(&[B::NAME.as_bytes(), &salt, &pass, &key_raw]), true);
+        rep.sample_class(&format!("{}.pbkw-sequence", B::NAME), 1, || json!({"backend": B::NAME, "kind": kind.name(), "sequence": history, "outcome": "every blob of the sequence unwrapped to the same key"}));
+    }
+}
+
 /// sibling backends unwrap each other's output
 fn siblings<A: Backend, B: Backend>(opts: &Opts, rep: &mut Report) {
     if !(opts.wants_backend(A::NAME) && opts.wants_backend(B::NAME)) {
@@ -268,6 +332,12 @@ pub fn run(opts: &Opts) {
         backend::<V4Na, Rc>(opts, &mut rep);
         siblings::<V3, V3Lc>(opts, &mut rep);
         siblings::<V4, V4Na>(opts, &mut rep);
+        pbkw_sequences::<V1, Ffi>(opts, &mut rep);
+        pbkw_sequences::<V2, Ffi>(opts, &mut rep);
+        pbkw_sequences::<V3, Ffi>(opts, &mut rep);
+        pbkw_sequences::<V4, Ffi>(opts, &mut rep);
+        pbkw_sequences::<V3Lc, Rc>(opts, &mut rep);
+        pbkw_sequences::<V4Na, Rc>(opts, &mut rep);
     }
     #[cfg(not(feature = "ffi"))]
     {
